@@ -152,6 +152,7 @@ package gen
 //@   ensures[C12] res.stats != nil
 
 //@ func NewParquetWriter
+//@   allocates GEN.ParquetWriter
 //@   verify[C13]
 //@   requires external(w)
 //@   requires forall k in 0..#opts: fnid(opts[k]) != fnidOf("GEN.withMeta$1")
@@ -165,17 +166,24 @@ package gen
 //@ recfn[4] lastOpt(A array<int>, off int, n int, id int) int := ite(n <= 0, 0 - 1, ite(fnid(A[off + n - 1]) == id, n - 1, lastOpt(A, off, n - 1, id)))
 // C06: overflow pages form a chain of writers that share the root's metadata and page size.
 //@ pred chainAt(c) := c.child != nil ==> c.child.meta == c.meta && c.child.max == c.max
-//@ pred chainInv(n) := forall r in 1..n: chainAt(cast("*GEN.ParquetWriter", r))
+// The invariant holds for every ParquetWriter object: objects of this type are
+// tracked by dynamic type, and only functions that say "allocates" create them.
+//@ tracked GEN.ParquetWriter
+//@ pred chainInv(n) := forall r in 1..n: rtype(r) == typeid("*GEN.ParquetWriter") ==> chainAt(cast("*GEN.ParquetWriter", r))
+//@ pred onlyNew(p) := forall r in old(allocbound())..allocbound(): rtype(r) == typeid("*GEN.ParquetWriter") ==> r == ref(p)
+//@ pred noNew(x) := forall r in old(allocbound())..allocbound(): rtype(r) != typeid("*GEN.ParquetWriter")
 //@ pred nodeKept(c) := c.len >= old(c.len) && c.fields == old(c.fields) && c.max == old(c.max) && c.meta == old(c.meta) && c.w == old(c.w)
 //@ pred optMeta(opts, n) := lastOpt(HA(opts), off(opts), n, fnidOf("GEN.withMeta$1"))
 //@ pred optMax(opts, n) := lastOpt(HA(opts), off(opts), n, fnidOf("GEN.MaxPageSize$1"))
 
 //@ func newParquetWriter
+//@   allocates GEN.ParquetWriter
 //@   requires external(w) || (forall k in 0..#opts: fnid(opts[k]) != fnidOf("GEN.begin"))
 //@   modifies wfault, snkPos
 //@   ensures[C06] err == nil ==> res0.len == 0 && res0.child == nil && #res0.fields >= 1 && res0.meta != nil
 //@   ensures[C06] err == nil && optMeta(opts, #opts) >= 0 && cloArg(opts[optMeta(opts, #opts)]) != 0 ==> res0.meta == cloArg(opts[optMeta(opts, #opts)])
 //@   ensures[C06] err == nil && optMeta(opts, #opts) < 0 ==> #res0.meta.rowGroups == 1 && lastRows(res0.meta) == 0 && res0.meta.rowGroupDocs == 0 && res0.meta.docs == 0
+//@   ensures[C06] err == nil && (forall k in 0..#opts: fnid(opts[k]) != fnidOf("GEN.withMeta$1")) ==> #res0.meta.rowGroups == 1 && lastRows(res0.meta) == 0 && res0.meta.rowGroupDocs == 0 && res0.meta.docs == 0
 //@   ensures[C06] err == nil && optMax(opts, #opts) >= 0 ==> res0.max == cloArg(opts[optMax(opts, #opts)])
 //@   ensures[C06] err == nil && optMax(opts, #opts) < 0 ==> res0.max == 1000
 //@   ensures[C06] (forall k in 0..#opts: fnid(opts[k]) != fnidOf("GEN.begin")) ==> snkPos == old(snkPos)
@@ -191,7 +199,7 @@ package gen
 //@   invariant (forall k in 0..rangeindex+1: fnid(opts[k]) != fnidOf("GEN.withMeta$1")) ==> p.meta == nil
 //@   invariant (forall k in 0..rangeindex+1: fnid(opts[k]) != fnidOf("GEN.begin")) ==> wfault == old(wfault)
 //@   invariant[C06] (forall k in 0..rangeindex+1: fnid(opts[k]) != fnidOf("GEN.begin")) ==> snkPos == old(snkPos)
-//@   invariant[C06] p.len == 0 && p.child == nil && freshsince(p)
+//@   invariant[C06] p.len == 0 && p.child == nil && freshsince(p) && onlyNew(p)
 //@   invariant[C06] optMeta(opts, rangeindex + 1) >= 0 ==> p.meta == cloArg(opts[optMeta(opts, rangeindex + 1)])
 //@   invariant[C06] optMeta(opts, rangeindex + 1) < 0 ==> p.meta == nil
 //@   invariant[C06] optMax(opts, rangeindex + 1) >= 0 ==> p.max == cloArg(opts[optMax(opts, rangeindex + 1)])
@@ -199,10 +207,12 @@ package gen
 //@ loop newParquetWriter#2
 //@   modifies HA(schema)
 //@   invariant freshsince(schema) && #schema == #ff
+//@   invariant[C06] onlyNew(p)
 
 // Add counts one row in the open row group (whichever writer of the chain
 // stores it), touches no closed group and writes nothing.
 //@ func (*ParquetWriter).Add
+//@   allocates GEN.ParquetWriter
 //@   verify[C13]
 //@   verify[C06]
 //@   requires[C06] p != nil && p.meta != nil && chainInv(allocbound())
@@ -210,10 +220,13 @@ package gen
 //@   ensures[C09] wfault == old(wfault)
 //@   ensures[C06] p.meta.docs == old(p.meta.docs) + 1 && p.meta.rowGroupDocs == old(p.meta.rowGroupDocs) + 1 && p.meta.rowGroups == old(p.meta.rowGroups) && p.meta.ts == old(p.meta.ts)
 //@   ensures[C06] chainInv(allocbound()) && (forall r in 1..old(allocbound()): nodeKept(cast("*GEN.ParquetWriter", r)))
-//@   ensures[C06] old(rootOK(p)) ==> rootOK(p)
+//@   ensures[C06] old(rootOK(p)) ==> p.max >= 1 && p.len >= 0 && #p.fields >= 1
+//@   ensures[C06] old(rootOK(p)) ==> mInv(p.meta)
+//@   ensures[C06] old(rootOK(p)) ==> lastRows(p.meta) == 0
+//@   ensures[C06] old(rootOK(p)) ==> (p.len == 0 <==> p.meta.rowGroupDocs == 0)
 //@ loop (*ParquetWriter).Add#1
 //@   invariant wfault == old(wfault)
-//@   invariant[C06] p.meta.docs == old(p.meta.docs) + 1 && p.meta.rowGroupDocs == old(p.meta.rowGroupDocs) + 1 && p.meta.rowGroups == old(p.meta.rowGroups) && p.meta.ts == old(p.meta.ts) && sameheap("GEN.ParquetWriter")
+//@   invariant[C06] p.meta.docs == old(p.meta.docs) + 1 && p.meta.rowGroupDocs == old(p.meta.rowGroupDocs) + 1 && p.meta.rowGroups == old(p.meta.rowGroups) && p.meta.ts == old(p.meta.ts) && sameheap("GEN.ParquetWriter") && noNew(0)
 
 //@ func MaxPageSize
 //@   modifies nothing
